@@ -190,6 +190,35 @@ def _frame_cases(nmax, nweights, count, seed):
     return out
 
 
+def _check_narrow(case):
+    """integer weights stored in a narrow numpy dtype: weight k on many rows still equals k copies (no wrap-around in the weighted sums)"""
+    import fairlearn.metrics as fm
+    n, k, dtype, npos, seed = case
+    rng = np.random.default_rng(seed)
+    yt = rng.integers(0, 2, n)
+    yp = np.array([1] * npos + [0] * (n - npos))
+    rng.shuffle(yp)
+    if len(set(yt.tolist())) < 2:
+        yt[0], yt[1] = 0, 1
+    w = np.full(n, k, dtype=dtype)
+    fp = fingerprint(case)
+    ryt, ryp = np.repeat(yt, k), np.repeat(yp, k)
+    for name in BASE:
+        f = getattr(fm, name)
+        for pred_dtype in (int, np.uint8):
+            try:
+                got = float(f(yt, yp.astype(pred_dtype), sample_weight=w))
+                want = float(f(ryt, ryp.astype(pred_dtype)))
+            except Exception as ex:
+                return (True, fp, (f"C11:{name}:raises", f"{name} raised {type(ex).__name__}: {ex} with {dtype} weights"[:300], {"case": list(map(str, case))}))
+            if not S.close(got, want):
+                return (True, fp, (f"C11:{name}:weight-vs-copies:narrow-integer-weights",
+                                   f"{name}: {n} rows with weight {k} stored as {np.dtype(dtype).name} (predictions {np.dtype(pred_dtype).name}, {npos} positive predictions): got {got!r}, "
+                                   f"{k} unit-weight copies of every row give {want!r}",
+                                   {"function": name, "n": n, "weight": k, "weight_dtype": np.dtype(dtype).name, "y_true": yt.tolist(), "y_pred": yp.tolist(), "got": got, "expected": want}))
+    return (True, fp, None)
+
+
 def run_bounded(rep):
     rep.assume("A1", "A2")
     thorough = rep.tier != "quick"
@@ -199,6 +228,12 @@ def run_bounded(rep):
                    "metric functions (+ mean_prediction on scores): weighted vs replicated (weights omitted / all ones) vs 3 scalings; non-trivial = n>=2 "
                    "or weight != 1; distinct by (y_true, y_pred, w)" % (nfull, per, nfull + 1),
               bound=f"n <= {nfull + 1}, weights in {{1,2,3}}, scalings {SCALINGS}", cases=_base_cases(nfull, per, rep.seed), check_case=_check_base, exhaustive=False)
+    narrow = [(n, k, dt, int(n * fr), rep.seed + i) for i, (n, k, dt, fr) in enumerate(itertools.product((50, 100, 300) if not thorough else (50, 100, 300, 1000), (2, 3),
+                                                                                                    (np.uint8, np.int8, np.uint16, np.int32, np.int64), (0.3, 0.9, 1.0)))]
+    run_cases(rep, "narrow_integer_weight_dtypes",
+              rule="n in {50,100,300} rows x weight k in {2,3} stored as uint8/int8/uint16/int32/int64 x 30%/90%/100% positive predictions (int and uint8 predictions): the 6 base "
+                   "functions weighted vs k copies of every row (sums beyond the range of the weight dtype); distinct by full case", bound="n <= 300 (1000 thorough)",
+              cases=narrow, check_case=_check_narrow, exhaustive=False)
     nmax, nw, count = (4, 4, 3000) if thorough else (3, 2, 500)
     run_cases(rep, "metricframe_and_fairness",
               rule="all y_true,y_pred in {0,1}^n x all partitions of the rows into groups, n<=%d, x (all-ones + %d vectors of {1,2,3}^n; 2 for n=4), plus %d seeded "
